@@ -26,7 +26,7 @@ from .. import common as cm
 from ..translate import TranslationError, ExprTranslator, lit, strip_doc
 
 PROP = 'C11'
-GENERATED = ['VoigtTables', 'CrystalCij', 'IsoPairs', 'AxesCheck']
+GENERATED = ['VoigtTables', 'CrystalCij', 'IsoPairs', 'AxesCheck', 'InitRoute']
 SRC = 'atomman/core/ElasticConstants.py'
 AXES_SRC = 'atomman/tools/axes_check.py'
 
@@ -60,6 +60,9 @@ THEOREMS = [
     'C11.gen_axesCheckU_eq_model', 'C11.gen_axesCheck_eq_model', 'C11.axesCheckT_congr', 'C11.axesCheck_scale_invariant',
     'C11.transform_axes_scale_invariant', 'C11.unitRows_orthogonal', 'C11.axesCheck_normalises',
     'C11.transform_rotates_by_unit_axes', 'C11.axesCheck_refuses_left_handed',
+    # __init__ routing over the regenerated if / elif chain
+    'C11.init_empty', 'C11.init_matrix_alone', 'C11.init_routes_agree', 'C11.init_matrix_mixed_refused',
+    'C11.init_named_route', 'C11.init_type_error_iff',
 ]
 PARTIAL = {
     'transform_with_cleanups': 'transform_id/comp/inv, energy and moduli invariance and system_invariant_* are proved for '
@@ -710,6 +713,106 @@ def _axes_check_gen(axes_src):
     return '\n'.join(P)
 
 
+# ---- ElasticConstants.__init__: the if / elif chain as generated Lean ------------------------------------------
+
+def _init_chain_gen(methods, infos):
+    """`__init__(self, **kwargs)`: one if / elif chain; tests `len(kwargs) == n [or len(kwargs) == m]` and
+    `'X' in kwargs`; bodies `self.__c_ij = np.zeros((6, 6), dtype='float64')`, `assert len(kwargs) == 1; self.X =
+    kwargs['X']`, `self.m(**kwargs)`, `if 'K' in kwargs: self.a(**kwargs) else: self.b(**kwargs)`; final
+    `else: raise E(...)`.  Emits Generated/InitRoute.lean: the chain in program order (`initChain`, `initElse`) and,
+    from the symbolic execution of every keyword set (`infos`), the method each set ends up in (`ctorRoutes`)."""
+    fn = methods.get(('__init__', 'def'))
+    if fn is None:
+        raise TranslationError('__init__ not found')
+    a = fn.args
+    if [x.arg for x in a.args] != ['self'] or a.vararg or a.kwonlyargs or a.defaults or a.kwarg is None:
+        raise TranslationError('__init__: unexpected signature')
+    kw = a.kwarg.arg
+    body = _body(fn)
+    if len(body) != 1 or not isinstance(body[0], ast.If):
+        raise TranslationError('__init__: body is not one if / elif chain')
+
+    def test(t):
+        u = ast.unparse(t)
+        if isinstance(t, ast.Compare) and len(t.ops) == 1 and isinstance(t.ops[0], ast.Eq) \
+                and ast.unparse(t.left) == f'len({kw})':
+            return f'.lenIn [{_int(t.comparators[0])}]', None
+        if isinstance(t, ast.BoolOp) and isinstance(t.op, ast.Or):
+            ns = []
+            for v in t.values:
+                if not (isinstance(v, ast.Compare) and len(v.ops) == 1 and isinstance(v.ops[0], ast.Eq)
+                        and ast.unparse(v.left) == f'len({kw})'):
+                    raise TranslationError(f'__init__: unsupported test `{u}`')
+                ns.append(_int(v.comparators[0]))
+            return '.lenIn [' + ', '.join(map(str, ns)) + ']', None
+        if isinstance(t, ast.Compare) and len(t.ops) == 1 and isinstance(t.ops[0], ast.In) \
+                and isinstance(t.left, ast.Constant) and isinstance(t.left.value, str) \
+                and ast.unparse(t.comparators[0]) == kw:
+            return f'.has "{t.left.value}"', t.left.value
+        raise TranslationError(f'__init__: unsupported test `{u}`')
+
+    def call(st):
+        if isinstance(st, ast.Expr) and isinstance(st.value, ast.Call) and isinstance(st.value.func, ast.Attribute) \
+                and ast.unparse(st.value.func.value) == 'self' and not st.value.args \
+                and len(st.value.keywords) == 1 and st.value.keywords[0].arg is None \
+                and ast.unparse(st.value.keywords[0].value) == kw:
+            return st.value.func.attr
+        raise TranslationError(f'__init__: unsupported statement `{ast.unparse(st)[:70]}`')
+
+    def action(stmts, key):
+        if len(stmts) == 1 and ast.unparse(stmts[0]) == "self.__c_ij = np.zeros((6, 6), dtype='float64')":
+            return '.zeros'
+        if len(stmts) == 2 and isinstance(stmts[0], ast.Assert) and key is not None:
+            t = stmts[0].test
+            if isinstance(t, ast.Compare) and len(t.ops) == 1 and isinstance(t.ops[0], ast.Eq) \
+                    and ast.unparse(t.left) == f'len({kw})' \
+                    and ast.unparse(stmts[1]) == f"self.{key} = {kw}['{key}']":
+                return f'.setter "{key}" {_int(t.comparators[0])}'
+            raise TranslationError(f'__init__: unsupported branch for {key}')
+        if len(stmts) == 1 and isinstance(stmts[0], ast.If) and len(stmts[0].body) == 1 and len(stmts[0].orelse) == 1:
+            tt, k2 = test(stmts[0].test)
+            if k2 is None:
+                raise TranslationError('__init__: nested test is not a keyword test')
+            return f'.callIf "{k2}" "{call(stmts[0].body[0])}" "{call(stmts[0].orelse[0])}"'
+        if len(stmts) == 1:
+            return f'.call "{call(stmts[0])}"'
+        raise TranslationError(f'__init__: unsupported branch `{ast.unparse(stmts[0])[:60]}`')
+
+    chain, node, els = [], body[0], None
+    while True:
+        t, key = test(node.test)
+        chain.append((t, action(node.body, key)))
+        if len(node.orelse) == 1 and isinstance(node.orelse[0], ast.If):
+            node = node.orelse[0]
+            continue
+        oe = node.orelse
+        if len(oe) == 1 and isinstance(oe[0], ast.Raise) and isinstance(oe[0].exc, ast.Call) \
+                and isinstance(oe[0].exc.func, ast.Name):
+            els = oe[0].exc.func.id
+            break
+        raise TranslationError('__init__: the chain does not end in `else: raise E(...)`')
+    routes = []
+    for i in infos:
+        rt = i.get('route') or []
+        if len(rt) >= 2 and rt[0] == '__init__':
+            routes.append('([' + ', '.join(f'"{k}"' for k in i['keys']) + f'], "{rt[1]}")')
+    P = ['/- GENERATED by harness/props/c11.py from atomman/core/ElasticConstants.py (__init__) — do not edit. -/',
+         'namespace Atomman.Gen', '',
+         '/-- a test of the `__init__` chain: `len(kwargs) in ns` / `\'k\' in kwargs`. -/',
+         'inductive InitTest where\n  | lenIn (ns : List Nat)\n  | has (k : String)\n  deriving Repr, DecidableEq', '',
+         '/-- a branch body: zero matrix / `assert len(kwargs) == n; self.k = kwargs[k]` / `self.m(**kwargs)` / '
+         '`if k in kwargs: self.a(**kwargs) else: self.b(**kwargs)`. -/',
+         'inductive InitAct where\n  | zeros\n  | setter (k : String) (assertLen : Nat)\n  | call (m : String)\n'
+         '  | callIf (k a b : String)\n  deriving Repr, DecidableEq', '',
+         '/-- the if / elif chain of `ElasticConstants.__init__` in program order. -/',
+         'def initChain : List (InitTest × InitAct) :=\n  [' + ',\n   '.join(f'({t}, {a_})' for t, a_ in chain) + ']', '',
+         '/-- the exception of the final `else`. -/', f'def initElse : String := "{els}"', '',
+         '/-- for every keyword set that the symbolic execution follows through `__init__`: the method it enters. -/',
+         'def ctorRoutes : List (List String × String) :=\n  [' + ',\n   '.join(routes) + ']', '',
+         'end Atomman.Gen', '']
+    return '\n'.join(P)
+
+
 # ---- Lean emitters ---------------------------------------------------------------------
 
 def _tup(t):
@@ -1346,6 +1449,7 @@ def _translate_all():
                                           'namespace Atomman.Gen', ''] + texts
                                   + [_dispatch('crystalDispatch', infos), _estimates(methods),
                                      _normalized(methods, have), 'end Atomman.Gen', ''])
+    out['InitRoute'] = _init_chain_gen(methods, infos + iso_infos)
     return out, infos, iso_infos
 
 
@@ -1745,6 +1849,50 @@ def correspond(ctx):
             r, e = _call(lambda: EC(Sij=Z).Cij)
             B.add('setsij:singular', 'setsij ' + cm.frs(Z), r, e, _exact, {'Sij': Z.tolist()}, nontrivial=False)
     B.run()
+
+    # ---- 3a. __init__ routing (generated chain): a probe subclass records which setter / method __init__ enters -----
+    named_methods = ['isotropic', 'cubic', 'hexagonal', 'tetragonal', 'rhombohedral', 'orthorhombic', 'monoclinic',
+                     'triclinic', 'model']
+
+    class Probe(EC):
+        pass
+
+    def _mk_method(m):
+        def f(self, **kw):
+            self.__dict__.setdefault('_log', []).append('call ' + m)
+        return f
+
+    def _mk_setter(k):
+        def f(self, v):
+            self.__dict__.setdefault('_log', []).append('set ' + k)
+        return f
+    for m_ in named_methods:
+        setattr(Probe, m_, _mk_method(m_))
+    for k_ in MATRIX_KEYS[:5]:
+        setattr(Probe, k_, property(getattr(EC, k_).fget, _mk_setter(k_)))
+    pool = CIJ_KEYS + ['M', 'lambda', 'mu', 'E', 'nu', 'K']
+    for it in range(ctx.n(150, 1500)):
+        n_ = [0, 1, 2, 3, 4, 5, 6, 7, 8, 9, 10, 12, 13, 14, 20, 21, 22][it % 17] if it % 3 else rng.randint(0, 24)
+        keys = rng.sample(pool + _TYPOS[:4], min(n_, len(pool) + 4))
+        r_ = rng.random()
+        if r_ < 0.25:
+            keys = rng.sample(MATRIX_KEYS[:5], rng.choice([1, 1, 2])) + (keys if rng.random() < 0.7 else [])
+        elif r_ < 0.32:
+            keys = keys + ['model']
+        elif r_ < 0.37:
+            keys = ['model'] + rng.sample(MATRIX_KEYS[:5], 1) + keys[:2]
+        rng.shuffle(keys)
+        p_, e = _call(lambda: Probe(**{k: 1.0 for k in keys}))
+        if e is None:
+            log = p_.__dict__.get('_log', [])
+            obs = log[0] if len(log) == 1 else ('zeros' if not log and not p_.Cij.any() else 'log:' + ';'.join(log))
+        else:
+            obs = {'err:assert': 'assert', 'err:type': 'raise TypeError', 'err:value': 'raise ValueError'}.get(e, e)
+        out = ctx.driver.ask('initroute ' + ' '.join(keys))
+        ctx.stats.case('initroute', tuple(sorted(keys)), sample={'op': 'initroute', 'keys': keys} if it < 3 else None)
+        if out != obs:
+            ctx.disagree('initroute', f'__init__({sorted(keys)}): implementation {obs!r}, model {out!r}',
+                         {'op': 'initroute', 'keys': keys, 'impl': obs, 'model': out})
 
     # ---- 3b. tools.axes_check on its own (generated model): rows of every length, tilted, left-handed; tol forms ---
     from atomman.tools import axes_check
